@@ -265,6 +265,127 @@ theorem untouched_value (t : Tree) (p : Path) (n : NodeRec)
   rw [applyDefaults_value t [] p n h, hin]
   cases hv : n.value.isNone <;> simp
 
+/-! ## (C) where a declaration lands, and which declaration wins on the tree -/
+
+/-- **A declaration lands at the lexical normal form of its wiring.**  `_establish_path` from
+the node at `pos` (a `..`-free absolute path) along `rel` — `..` anywhere, detours included —
+ends, when it succeeds, at `normalize (pos ++ rel)`. -/
+theorem establish_reaches_lexical (reg : Reg) (cfg : Val) (rel : Path) (t : Tree) (pos : Path)
+    (t' : Tree) (a : Path) (hpos : Clean pos)
+    (h : establishPath reg t pos rel cfg = .ok (t', a)) : a = normalize (pos ++ rel) :=
+  establish_pos reg cfg rel t pos t' a hpos h
+
+example : okAnd (establishPath reg0 [([], {}), (["agents"], {})] ["agents"] ["..", "tmp", "..", "s1", "x"]
+    (.dict [("_default", .int 2)])) (fun r => r.2 == ["s1", "x"] && r.1.has ["tmp"]) = true := by
+  decide +kernel
+
+/-- **Several processes declare one variable: the node exists and the last `_default` wins.**
+For every list of plain leaf declarations (start node, wiring with `..` anywhere, leaf config
+naming a default, no structural keys), carried out in listing order on any tree: if
+construction succeeds then, for every path `a`, the default of the node at `a` is the
+`_default` of the last declaration whose wiring resolves to `a` (the node's previous default
+if there is none), and a node exists at `a` as soon as one declaration is wired to it. -/
+theorem declared_default_last_wins (reg : Reg) :
+    ∀ (ds : List Decl) (t t' : Tree),
+      (∀ d ∈ ds, PlainLeaf d.cfg ∧ Clean d.pos) →
+      declareAll reg t ds = .ok t' →
+      ∀ a : Path,
+        (nodeOr t' a).default =
+          lastDeclared "_default" (nodeOr t a).default
+            ((ds.filter (fun d => d.target = a)).map (·.cfg)) ∧
+        (((t.get a).isSome ∨ ∃ d ∈ ds, d.target = a) → (t'.get a).isSome) := by
+  intro ds
+  induction ds with
+  | nil =>
+    intro t t' _ h a
+    simp only [declareAll] at h
+    injection h with h; subst h
+    exact ⟨rfl, fun hh => by simpa using hh⟩
+  | cons d ds ih =>
+    intro t t' hall h a
+    simp only [declareAll] at h
+    cases he : establishPath reg t d.pos d.rel (.dict d.cfg) with
+    | error e => simp [he] at h
+    | ok r =>
+      obtain ⟨t1, a1⟩ := r
+      simp only [he] at h
+      have hd := hall d (by simp)
+      have hpos : a1 = d.target := establish_pos reg _ d.rel t d.pos t1 a1 hd.2 he
+      obtain ⟨tm, n0, n', hext, hg0, _, hl, ht1⟩ := establish_plain reg d.cfg hd.1 d.rel t d.pos t1 a1 he
+      have ih' := ih t1 t' (fun d' hd' => hall d' (by simp [hd'])) h a
+      by_cases hta : d.target = a
+      · -- this declaration is for `a`
+        have ha1 : a1 = a := hpos.trans hta
+        subst ha1
+        have hn1 : nodeOr t1 a1 = n' := by simp [nodeOr, ht1]
+        have hn0 : nodeOr tm a1 = n0 := by simp [nodeOr, hg0]
+        have hdef : (nodeOr t1 a1).default = (KV.lookup "_default" d.cfg).getD (nodeOr t a1).default := by
+          rw [hn1, leaf_default_step reg n0 n' d.cfg hl, ← hn0, nodeOr_ext hext]
+        refine ⟨?_, fun _ => ?_⟩
+        · rw [ih'.1, hdef]
+          simp [List.filter_cons, hta, lastDeclared]
+        · apply ih'.2; left; simp [ht1]
+      · have hne : a ≠ a1 := fun e => hta (by rw [← hpos, e])
+        have hn1 : nodeOr t1 a = nodeOr t a := by
+          have : nodeOr t1 a = nodeOr tm a := by
+            simp only [nodeOr, ht1, Tree.get_set_other tm hne]
+          rw [this, nodeOr_ext hext]
+        refine ⟨?_, fun hh => ?_⟩
+        · rw [ih'.1, hn1]
+          simp [List.filter_cons, hta]
+        · apply ih'.2
+          rcases hh with hh | ⟨d', hd', hd't⟩
+          · left
+            cases hg : t.get a with
+            | none => simp [hg] at hh
+            | some m =>
+              rw [ht1, Tree.get_set_other tm hne, hext.1 a m hg]; rfl
+          · simp at hd'
+            rcases hd' with rfl | hd'
+            · exact absurd hd't hta
+            · right; exact ⟨d', hd', hd't⟩
+
+example : okAnd (declareAll reg0 [([], {}), (["agents"], {})]
+    [⟨[], ["s1", "x"], [("_default", .int 1), ("_emit", .bool true)]⟩,
+     ⟨["agents"], ["..", "s1", "x"], [("_default", .int 2), ("_updater", .str "set")]⟩])
+    (fun t => (nodeOr t ["s1", "x"]).default.pyEq (.int 2) && t.has ["s1", "x"]) = true := by
+  decide +kernel
+
+/-- **C15, end to end (proved in part).**
+Full statement: *after `generate processes steps topology initial_state` succeeds, for every
+process and every variable `v` of its ports schema wired (through the topology: tuple paths
+with `..`, `_path` dictionaries, nested ports, glob children) to the node `a`: the tree has a
+node at `a` without children whose value is the initial state's value at `a` if it is present
+and not `None`, else the explicit `_value` if one was declared and the state is silent, else
+the `_default` of the last declaration that reached `a` (a glob's sub-schema counts as the
+last one for the glob's children).*
+Proved here: the same for the sequence of plain leaf declarations the processes make
+(`declareAll`: existence of the node, which default wins) followed by `set_value` on the
+variable and `apply_defaults` from the root.  Missing (covered by the correspondence check
+only): that `generatePaths`/`topologyPorts`/`applyConfig` walk the schemas and topologies into
+exactly this sequence of declarations (nested configs, `_path` dictionaries, glob
+sub-schemas), and the descent of `set_value` from the root through the state's dictionaries
+down to the variable. -/
+theorem exists_and_value_generate_partial (reg : Reg) (ds : List Decl) (t t' : Tree) (a : Path)
+    (v : Val) (hds : ∀ d ∈ ds, PlainLeaf d.cfg ∧ Clean d.pos)
+    (h : declareAll reg t ds = .ok t') (hdecl : ∃ d ∈ ds, d.target = a)
+    (hin : t'.hasInner a = false) (hsub : (nodeOr t' a).subschema = []) :
+    ∃ t'', setValue reg t' a v = .ok t'' ∧
+      ((applyDefaults t'' []).get a).map (·.value) =
+        some (if v.isNone
+              then lastDeclared "_default" (nodeOr t a).default
+                    ((ds.filter (fun d => d.target = a)).map (·.cfg))
+              else v) := by
+  obtain ⟨hdef, hex⟩ := declared_default_last_wins reg ds t t' hds h a
+  have hsome := hex (Or.inr hdecl)
+  cases hg : t'.get a with
+  | none => simp [hg] at hsome
+  | some n =>
+    have hn : nodeOr t' a = n := by simp [nodeOr, hg]
+    rw [hn] at hdef hsub
+    obtain ⟨t'', h1, h2⟩ := exists_and_value reg t' a n v hg hin hsub
+    exact ⟨t'', h1, by rw [h2, hdef]⟩
+
 /-! ## (D) which initial state the engine uses -/
 
 /-- `Engine(composite=c, initial_state=x)`: a non-empty `c.state` is used *instead of* `x`
@@ -274,5 +395,60 @@ theorem engineInitial_spec (cs x : Val) :
 
 example : (engineInitial (.dict [("a", .int 1)]) (.dict [("b", .int 2)])).pyEq (.dict [("a", .int 1)]) = true := by
   decide +kernel
+
+/-! ## (E) `Composite.initial_state()` / `default_state()`: later merge wins -/
+
+/-- **Later merge wins.**  `_get_composite_state_recur` merges the processes' own states (each
+placed by `inverse_topology`) one after the other with `deep_merge`, and `_get_composite_state`
+merges the given initial state last: in `deep_merge(a, b)` a non-dictionary value of `b` is
+what the result holds at that key, whatever `a` had. -/
+theorem deepMerge_later_wins (k : String) (v : Val) (hv : v.isDict = false) :
+    ∀ (b a : KVs), KV.Nodup b → KV.lookup k b = some v →
+      KV.lookup k (deepMergeKVs a b) = some v := by
+  intro b
+  induction b with
+  | nil => intro a _ h; simp [KV.lookup] at h
+  | cons hd tl ih =>
+    intro a hn h
+    obtain ⟨k0, v0⟩ := hd
+    have hn' : KV.Nodup tl := by
+      unfold KV.Nodup KV.keys at hn ⊢; simp at hn; exact hn.2
+    by_cases h0 : k0 = k
+    · subst h0
+      simp [KV.lookup] at h; subst h
+      have hk' : k0 ∉ KV.keys tl := by
+        unfold KV.Nodup KV.keys at hn; simp at hn; unfold KV.keys; simpa using hn.1
+      unfold deepMergeKVs
+      rw [lookup_deepMerge_not_mem k0 tl _ hk', KV.lookup_set_same]
+      cases v0 <;> simp [Val.isDict] at hv ⊢
+    · simp only [KV.lookup, h0, if_false] at h
+      unfold deepMergeKVs
+      exact ih _ hn' h
+
+example : KV.lookup "x" (deepMergeKVs [("x", .int 1), ("y", .int 2)] [("x", .int 0)]) = some (.int 0) :=
+  deepMerge_later_wins "x" (.int 0) rfl _ _ (by simp [KV.Nodup, KV.keys]) (by simp [KV.lookup])
+
+/-- … and keys the later dictionary does not mention keep the earlier value. -/
+theorem deepMerge_earlier_kept (k : String) (a b : KVs) (hk : k ∉ KV.keys b) :
+    KV.lookup k (deepMergeKVs a b) = KV.lookup k a :=
+  lookup_deepMerge_not_mem k b a hk
+
+/-- **The given state overrides the processes' own initial values** in
+`Composite.initial_state()`: whatever the processes place at a top-level key, a non-dictionary
+value given for it in the composite's `state`/`config['initial_state']` is the result. -/
+theorem composite_given_state_wins (fuel : Nat) (useInit : Bool) (kids : List (String × Procs))
+    (topology : Val) (st b : KVs) (k : String) (v : Val)
+    (hrec : compositeStateRecur fuel useInit [] kids topology = .ok st)
+    (hn : KV.Nodup b) (hk : KV.lookup k b = some v) (hv : v.isDict = false) :
+    ∃ r, compositeState fuel useInit kids topology (.dict b) = .ok (.dict r) ∧
+      KV.lookup k r = some v := by
+  refine ⟨deepMergeKVs st b, ?_, deepMerge_later_wins k v hv b st hn hk⟩
+  simp [compositeState, hrec, mergeInto, Except.map]
+
+example : ∃ r, compositeState 1 true [] (.dict []) (.dict [("x", .int 0)]) = .ok (.dict r) ∧
+    KV.lookup "x" r = some (.int 0) :=
+  composite_given_state_wins 1 true [] (.dict []) [] [("x", .int 0)] "x" (.int 0)
+    (by simp [compositeStateRecur, compositeStateRecur.go]) (by simp [KV.Nodup, KV.keys])
+    (by simp [KV.lookup]) rfl
 
 end VivProps.C15
